@@ -117,6 +117,8 @@ def trait_signature_check():
             rest = rest.replace(",)", ")")
             if named_ret:
                 rest = re.sub(r"->\(r:(.*)\)$", r"->\1", rest)
+            # parameter NAMES of a trait declaration are immaterial: compare types only
+            rest = re.sub(r"([(,])(mut)?[A-Za-z_][A-Za-z_0-9]*:", r"\1", rest)
             out[name] = rest
         return out
 
